@@ -277,6 +277,10 @@ class Check(DiffCheck):
                     if o not in live:
                         return 'object %s handed over but not live' % o
                     del live[o]
+        # quiescence: a recycling release still in flight although nobody holds the object any more never returns
+        for t, o in rel_obj.items():
+            if held.get(o, 0) == 0:
+                return 'thread %s: recycling release of object %s never returns although every other holder has released' % (t, o)
         if int(m.group(5)) != 0:
             return 'use after free flagged'
         return None
